@@ -387,12 +387,16 @@ func CheckMain(args []string) int {
 	fmt.Printf("%s %s: paths=%d decisions=%d queries(sat=%d unsat=%d unknown=%d prefilter=%d) validated=%d violations=%d known=%d complete=%v solver=%.1fs wall=%.1fs\n",
 		id, tier, agg.Stats.Paths, agg.Stats.Decisions, agg.Stats.Sat, agg.Stats.Unsat, agg.Stats.Unknown, agg.Stats.Prefilter, validated, nViol, nKnown, complete,
 		float64(agg.Stats.SolverNs)/1e9, wall)
+	if nViol > 0 {
+		// a natively confirmed (or monitor) violation stands even if other parts of the run were inconclusive
+		if broken {
+			fmt.Printf("NOTE %s: parts of this run were inconclusive (engine errors above); the violations reported were confirmed independently\n", id)
+		}
+		return 1
+	}
 	if broken {
 		fmt.Printf("CHECK-BROKEN %s\n", id)
 		return 3
-	}
-	if nViol > 0 {
-		return 1
 	}
 	return 0
 }
